@@ -37,7 +37,8 @@ struct Op
 
 struct Task
 {
-  int role = 0;        // 0 writer / producer / evaluator, 1 reader / consumer, 2 watchdog / heartbeat
+  int role = 0;        // 0 writer / producer / evaluator, 1 reader / consumer, 2 watchdog / heartbeat,
+                       // 3 neighbour: the only user of a second object of the same class (not part of the history)
   std::vector<Op> ops;
   // long runs: the op list is executed `repeat` times; cycle r adds r*vStep to v, r*tStep to t, r*seqStep to seq
   uint32_t repeat = 1;
@@ -97,6 +98,7 @@ struct Blob
 };
 
 constexpr const char * kName = "dev";
+constexpr const char * kNeighbourName = "nbr";   // name of the second object that only the neighbour thread (role 3) uses
 constexpr uint64_t kInitialOptionalSeq = (uint64_t)9 << 32;   // value an optional is born with when Plan::a != 0   // name given to every check-up in the scenarios
 
 }  // namespace c19
